@@ -14,6 +14,7 @@ If not, see <https://www.gnu.org/licenses/>.
 from __future__ import annotations
 from typing import Optional, Mapping, Any
 
+import os
 import shutil
 import json
 
@@ -65,8 +66,12 @@ def _write_data(sid_path: Path, data: Mapping[str, Any]) -> bool:
                 previous_data.update(data)
                 data = previous_data
 
-        # dumping data, converting to string if not serializable
-        data_path.write_text(json.dumps(data, indent=4, default=str))
+        # dumping data, converting to string if not serializable.
+        # The data is written to a (hidden) temporary file that then replaces the json file:
+        # an interrupted write leaves the previous data, never a truncated file.
+        temp_path = data_path.with_name(data_path.name + ".tmp")
+        temp_path.write_text(json.dumps(data, indent=4, default=str))
+        os.replace(temp_path, data_path)
 
         return data_path.exists()
 
